@@ -96,6 +96,35 @@ class Agg:
             self.harness.append((r["idx"], r["harness_error"]))
 
 
+_STRUCT = [
+    "ae_join", "ae_make_division", "ae_skip", "ae_forced", "ae_over_division_edge", "ae_target_has_parent", "ae_existing_edge",
+    "an_new_track", "an_append", "an_prepend", "an_into_skip_edge", "an_trackid_clash_same_time", "an_upstream_division", "an_downstream_division",
+    "de_normal_edge", "de_division_edge", "de_skip_edge", "dn_isolated", "dn_leaf", "dn_root_with_child", "dn_middle", "dn_first_after_division", "dn_dividing",
+    "sw_both", "sw_one_sided", "h_undo_step", "h_redo_step", "h_undo_empty", "h_redo_empty", "h_undo_deep", "h_edit_after_undo",
+    "cfg_2d", "cfg_3d", "cfg_noseg", "cfg_scale_none", "cfg_scale_ones", "cfg_scale_aniso", "cfg_ids_computed", "cfg_ids_adopted", "cfg_ids_featuredict", "cfg_empty_start",
+]
+_PAINT = ["pt_new_label", "pt_on_background", "pt_grow", "pt_erase_part", "pt_erase_all", "pt_over_part_of_other", "pt_over_all_of_other", "pt_over_several", "pt_multi_frame_erase", "pt_forced", "cfg_seg"]
+_IO = ["io_internal_ok", "io_csv_ok", "io_geff2_ok", "io_geff3_ok"]
+EXPECTED_PROBES = {
+    "C01": _STRUCT + _PAINT + ["c01_primitive_" + k for k in ("AddNode", "DeleteNode", "AddEdge", "DeleteEdge", "UpdateNodeSeg", "UpdateTrackIDs", "UpdateNodeAttrs")]
+    + ["c01_reinvert_" + k for k in ("add_node", "delete_node", "add_edge", "delete_edge", "swap", "update_attrs", "paint")] + ["cfg_pos_per_axis", "cfg_pos_renamed"],
+    "C02": _STRUCT + _PAINT + ["h_drain_full"],
+    "C03": _STRUCT + ["ae_refused_non-forward", "ae_refused_merge_without_force", "ae_refused_third_child"],
+    "C04": _STRUCT + ["io_restart_internal", "io_restart_geff", "io_restart_csv", "io_edit_after_restart"],
+    "C05": _STRUCT + ["io_restart_internal", "io_restart_geff", "io_restart_csv", "io_edit_after_restart", "c05_structure_changed"],
+    "C06": _STRUCT + ["io_restart_internal", "io_edit_after_restart"],
+    "C07": _PAINT + ["dn_leaf", "dn_middle", "h_undo_step", "h_redo_step", "cfg_2d", "cfg_3d"],
+    "C08": _PAINT + ["f_enable_after_edits", "cfg_scale_none", "cfg_scale_ones", "cfg_scale_aniso", "cfg_2d", "cfg_3d"],
+    "C09": _PAINT + ["f_enable_after_edits", "ae_skip", "de_skip_edge", "ae_join"],
+    "C10": ["f_enable_after_edits", "f_edit_while_disabled", "f_reenable_ids", "f_unknown_key", "f_protected_time", "f_protected_track_id", "f_protected_lineage_id", "f_protected_area", "f_protected_pos", "f_protected_iou", "c10_enable_values_checked", "cfg_seg", "cfg_noseg", "cfg_ids_featuredict"],
+    "C11": ["c11_add_edge_third child", "c11_add_edge_merge without force", "c11_add_edge_unknown", "c11_add_node_no_pos", "c11_add_node_exists", "c11_add_node_no_time", "c11_add_node_no_track", "c11_add_node_division", "c11_delete_node_unknown", "c11_delete_edge_missing", "c11_update_attrs_protected", "c11_swap_count", "pt_refused_after_overwrite"],
+    "C14": _IO + ["io_restart_internal", "io_restart_geff", "io_restart_csv", "io_edit_after_restart", "io_fault_write", "io_fault_open", "io_fault_read", "io_read_fault_raised", "cfg_pos_per_axis", "cfg_seg", "cfg_noseg", "cfg_scale_none"],
+    "C15": ["io_csv_ok", "io_csv_tif_ok", "io_csv_names_ok", "io_geff2_ok", "io_geff3_ok", "io_subset_root", "io_subset_leaf", "io_subset_div_child", "io_subset_all", "io_subset_needed_ancestors", "cfg_seg", "cfg_noseg"],
+    "C16": ["io_csv_ok", "io_csv_tif_ok", "io_csv_names_ok", "io_geff2_ok", "io_geff3_ok", "io_internal_ok", "io_fault_write", "io_fault_open", "cfg_scale_none", "cfg_pos_per_axis"],
+    "C20": _STRUCT + ["pt_new_label"],
+}
+
+
 def nontrivial_word(w: str) -> bool:
     """C02 rule: contains edit-after-undo followed later by >= 2 consecutive undos."""
     i = w.find("UE")
